@@ -90,6 +90,7 @@ func LogJSONMutation(versionID, dataID dvid.UUID, jsondata []byte) error {
 		return err
 	}
 	lf.Lock()
+	dvid.VerifPoint("mutationlog.Append:before")
 	w := protolog.NewTypedWriter(jsonMsgTypeID, lf.f)
 	_, err = w.Write(jsondata)
 	if err != nil {
@@ -98,6 +99,7 @@ func LogJSONMutation(versionID, dataID dvid.UUID, jsondata []byte) error {
 	}
 	// For mutation logs, we want to fsync just in case there is server power loss
 	// and mutations are relatively infrequent anyway.
+	dvid.VerifPoint("mutationlog.Append:before-sync")
 	err = lf.f.Sync()
 	lf.Unlock()
 	return err
